@@ -317,3 +317,26 @@ FUNCTIONS.update({
     props=['C06', 'C05'],
   ),
 })
+
+FUNCTIONS.update({
+  'ApertureBalancerSink._ScheduleNextJitter': dict(
+    cls='ApertureBalancerSink', requires=[], ensures=[], modifies=['ApertureBalancerSink._next_jitter'], allocates=True, trusted=True,
+    notes='schedules _Jitter on the low-resolution timer queue (C10 contract of Schedule); jitter itself is not under contract'),
+  # construction: both halves empty, configuration taken from the sink properties
+  'ApertureBalancerSink.__init__': dict(
+    cls='ApertureBalancerSink', params={'next_provider': 'NextProvider', 'sink_properties': 'SinkPropsX', 'global_properties': 'any'}, returns='none',
+    requires=['allocated(sink_properties) and allocated(sink_properties.server_set_provider)', 'sink_properties.min_size >= 0', 'sink_properties.min_load <= sink_properties.max_load',
+              'forall_ref(r, Node, not allocated(r), r.index)', 'forall_ref(r, Node, not r.g_inq, r.g_inq)'],
+    ensures=['ApAll(self)', 'self._size == 0', 'forall(e, "any", not (e in self._idle_endpoints))', 'self._total == 0',
+             'self._min_size == sink_properties.min_size and self._max_size == sink_properties.max_size',
+             'self.__open_ar is None', 'allocated(self.__init_done) and not self.__init_done.flag'],
+    modifies=['*'], allocates='any', drop=['ApertureVarz'],
+    literals={'set()': 'set[any]'},
+    props=['C06', 'C05'],
+  ),
+})
+
+EXTERNS.update({
+  'Ema': dict(params=[('window', 'int')], returns='EmaX', fresh=True, allocates=True, ensures=['result is not None']),
+  'MonoClock': dict(params=[], returns='ClockX', fresh=True, allocates=True, ensures=['result is not None']),
+})
